@@ -27,6 +27,7 @@ func init() {
 			{Name: "equal-participants", Run: c12Equal, Workers: 1, QuickS: 30, ThoroughS: 60},
 			{Name: "sort-helper", Run: c12Direct, QuickS: 60, ThoroughS: 600},
 			{Name: "call-sites", Run: c12Sites, QuickS: 90, ThoroughS: 900},
+			{Name: "large-sets", Run: c12Large, Workers: 4, QuickS: 60, ThoroughS: 120},
 		},
 	})
 }
@@ -495,5 +496,174 @@ func c12Equal(c *core.Ctx) {
 			c.Outcome("equal/each-once")
 		}
 		c.Sample(map[string]any{"case": cs, "load_calls": count})
+	})
+}
+
+// ---- large participant sets (library sorts switch algorithm above a dozen elements): complete
+// structured families through the real helper and as application runners
+
+type c12LargeCase struct {
+	N       int    `json:"participants"`
+	Pattern string `json:"pattern"` // how Order values are laid out before rotation
+	Rot     int    `json:"rotation"`
+	Classes int    `json:"class_layout"` // 0: i%3, 1: i%2 (priority/ordered only), 2: blocks reversed (unordered first)
+	Runners bool   `json:"as_application_runners,omitempty"`
+}
+
+func c12LargeSeq(cs c12LargeCase) (classes, orders []int) {
+	n := cs.N
+	for i := 0; i < n; i++ {
+		var o int
+		switch cs.Pattern {
+		case "descending":
+			o = n - i
+		case "ascending":
+			o = i
+		case "stride7":
+			o = (i * 7) % n
+		default: // "zigzag"
+			o = i / 2
+			if i%2 == 1 {
+				o = n - i/2
+			}
+		}
+		var cl int
+		switch cs.Classes {
+		case 0:
+			cl = i % 3
+		case 1:
+			cl = i % 2
+		default:
+			cl = 2 - (i*3)/n
+		}
+		classes, orders = append(classes, cl), append(orders, o)
+	}
+	r := cs.Rot % n
+	classes = append(classes[r:], classes[:r]...)
+	orders = append(orders[r:], orders[:r]...)
+	return
+}
+
+func c12Large(c *core.Ctx) { c12LargeRun(c, "C12", false) }
+
+// c13Many: the runner half of the family, under C13's name (more than a dozen runners).
+func c13Many(c *core.Ctx) { c12LargeRun(c, "C13", true) }
+
+func c12LargeRun(c *core.Ctx, prop string, runnersOnly bool) {
+	gen := func(yield func(c12LargeCase) bool) {
+		helperSizes := []int{12, 13, 14, 17, 25, 50}
+		runnerSizes := []int{13, 16, 24}
+		if runnersOnly {
+			helperSizes, runnerSizes = nil, []int{13, 14, 16, 24, 40}
+		}
+		for _, n := range helperSizes {
+			for _, pat := range []string{"descending", "ascending", "stride7", "zigzag"} {
+				for cl := 0; cl < 3; cl++ {
+					for r := 0; r < n; r++ {
+						if !yield(c12LargeCase{N: n, Pattern: pat, Rot: r, Classes: cl}) {
+							return
+						}
+					}
+				}
+			}
+		}
+		for _, n := range runnerSizes {
+			for _, pat := range []string{"descending", "stride7"} {
+				for cl := 0; cl < 2; cl++ {
+					for _, r := range []int{0, 1, n / 2} {
+						if !yield(c12LargeCase{N: n, Pattern: pat, Rot: r, Classes: cl, Runners: true}) {
+							return
+						}
+					}
+				}
+			}
+		}
+	}
+	Cases(c, gen, func(c *core.Ctx, cs c12LargeCase) {
+		classes, orders := c12LargeSeq(cs)
+		c.S.Evaluations++
+		c.S.Programs++
+		c.S.States++
+		c.S.Nontrivial++
+		c.S.Transitions += int64(cs.N)
+		key := prop + "/large/" + core.Hash(cs)
+		desc := fmt.Sprintf("%d participants (pattern %s, class layout %d, rotation %d)", cs.N, cs.Pattern, cs.Classes, cs.Rot)
+		var gotC, gotO []int
+		seen := map[int]int{}
+		if cs.Runners {
+			rt := &scen.RT{}
+			var comps []any
+			for i := range classes {
+				p := scen.Part{Nm: fmt.Sprintf("p%d", i), O: orders[i], RT: rt}
+				switch classes[i] {
+				case 0:
+					comps = append(comps, &scen.RunP{Part: p})
+				case 1:
+					comps = append(comps, &scen.RunO{Part: p})
+				default:
+					comps = append(comps, &scen.RunN{Part: p})
+				}
+			}
+			o := scen.Start(scen.StartSpec{Ch: envx.Fixed("", nil), Comps: comps})
+			if !o.OK() {
+				c.Outcome("large/start-failed")
+				c.Report(key, "start-failed", desc+": start-up did not succeed: "+scen.FirstLine(o.Err)+o.Panic+o.Abort, cs)
+				return
+			}
+			for _, e := range rt.Log {
+				var i int
+				if _, err := fmt.Sscanf(e, "run:p%d", &i); err == nil {
+					seen[i]++
+					gotC, gotO = append(gotC, classes[i]), append(gotO, orders[i])
+				}
+			}
+		} else {
+			in := make([]any, cs.N)
+			idx := map[any]int{}
+			for i := range classes {
+				p := scen.Part{Nm: fmt.Sprintf("e%d", i), O: orders[i]}
+				switch classes[i] {
+				case 0:
+					in[i] = &scen.ElemP{Part: p}
+				case 1:
+					in[i] = &scen.ElemO{Part: p}
+				default:
+					in[i] = &scen.ElemN{Part: p}
+				}
+				idx[in[i]] = i
+			}
+			var out []any
+			if pan := scen.Protect(func() { out = framework_helper.SortOrderedComponents(in) }); pan != "" {
+				c.Outcome("large/panic")
+				c.Report(key, "panic", desc+": the sorting helper panicked: "+pan, cs)
+				return
+			}
+			for _, x := range out {
+				i, ok := idx[x]
+				if !ok {
+					i = -1
+				}
+				seen[i]++
+				if ok {
+					gotC, gotO = append(gotC, classes[i]), append(gotO, orders[i])
+				}
+			}
+		}
+		for i := 0; i < cs.N; i++ {
+			if seen[i] != 1 || len(seen) != cs.N {
+				c.Outcome("large/not-a-permutation")
+				c.Report(key, "not-exactly-once", fmt.Sprintf("%s: participant %d appears %d times in the sequence (%d distinct)", desc, i, seen[i], len(seen)), cs)
+				return
+			}
+		}
+		if msg := contractViolation(gotC, gotO); msg != "" {
+			c.Outcome("large/contract-violated")
+			c.Report(key, "order-contract", fmt.Sprintf("%s: sequence of (class, Order) %v / %v: %s", desc, gotC, gotO, msg), cs)
+			return
+		}
+		c.Outcome(fmt.Sprintf("large/ok/n=%d/runners=%v", cs.N, cs.Runners))
+		if c.S.Programs%200 == 1 {
+			c.Sample(map[string]any{"case": cs})
+		}
 	})
 }
